@@ -25,7 +25,7 @@ func init() {
 			big := r.chance(1, 4) // sequences that approach / exceed the 1 MiB windows
 			n := r.rangeI(4, 40)
 			for j := 0; j < n; j++ {
-				k := r.intn(14)
+				k := r.intn(15)
 				if len(streams) == 0 || (k == 0 && len(streams) < 4) {
 					s := &st{id: next, open: true}
 					next += 2
@@ -72,6 +72,17 @@ func init() {
 					toks = append(toks, fmt.Sprintf("R:%d", s.id))
 				case k == 12:
 					toks = append(toks, fmt.Sprintf("x:%d", s.id))
+				case k == 14:
+					// the handler gives up on the upload (Body.Close()) but keeps working on its answer; the client keeps sending
+					toks = append(toks, fmt.Sprintf("c:%d", s.id))
+					c.tag("handler-closes-body")
+					for q, m := 0, r.intn(4); q < m; q++ {
+						pad := "-"
+						if r.chance(1, 2) {
+							pad = fmt.Sprint([]int{0, 1, 7, 100, 255}[r.intn(5)])
+						}
+						toks = append(toks, fmt.Sprintf("D:%d.%d.%s.%d", s.id, []int{0, 1, 100, 4096, 16000}[r.intn(5)], pad, b2i(r.chance(1, 6))))
+					}
 				default:
 					toks = append(toks, fmt.Sprintf("r:%d.%d", s.id, 1+r.intn(70000)))
 				}
